@@ -324,13 +324,25 @@ def decBody (P : Prims) (jwe cek : Json) : Option (Bs → Option Bs) :=
 def decCekIo (P : Prims) (jwe cek : Json) (next : IO.Stage) : Option IO.Stage :=
   (decBody P jwe cek).map fun f => .xform { final := f } next
 
+/-- `zip_in_protected_header(jwe)` (lib/misc.c): does the protected header name a registered compression?  The header
+    is taken as an object or decoded from its text; a text that does NOT decode answers *yes* (after fix F35: a header
+    that cannot be read - malformed, or out of memory - does not show that the content is not compressed) -/
+def zipInProtected (jwe : Json) : Bool :=
+  match jwe.get? "protected" with
+  | some (.str s) =>
+    (match B64.decLoad (some (.str s)) with
+     | none => true
+     | some prt => (prt.getStr? "zip").any findComp)
+  | some other => (other.getStr? "zip").any findComp
+  | none => false
+
 /-- `jose_jwe_dec_cek(cfg, jwe, cek, &ptl)` -/
 def decCek (P : Prims) (jwe cek : Json) : Option Bs :=
   match jwe.get? "ciphertext" with
   | some (.str ct) =>
     let text := B64.bytesOfString ct
     -- compressed input above the limit is refused before anything is fed
-    let zipHdr := ((B64.decLoad (jwe.get? "protected")).bind (·.getStr? "zip")).any findComp
+    let zipHdr := zipInProtected jwe
     if zipHdr && text.length > maxCompressed then none
     else
       (decBody P jwe cek).bind fun f => (B64.decode text).bind f
